@@ -476,7 +476,11 @@ package commands
 //@   loop 2 iter stcount(s) >= iter(stcount(s)) + 1 && stcount(s) <= iter(stcount(s)) + 2
 //@   loop 2 iter delayed ==> stcount(s) == iter(stcount(s)) + 1
 //@   at call commands.clean:1 assert stcount(s) == iter2(stcount(s)) + 1
+//@   at call commands.clean:1 assert arg0__ == gitfilter && arg2__ == req.Payload && arg3__ == req.Header["pathname"] && arg4__ == -1
 //@   at call commands.smudge:1 assert stcount(s) == iter2(stcount(s)) + 1
+//@   at call commands.smudge:1 assert arg0__ == gitfilter && arg2__ == from && arg3__ == req.Header["pathname"] && arg4__ == skip && arg5__ == filter
+//@   at call commands.incomingOrCached:1 assert arg0__ == req.Payload && arg1__ == ptrs[req.Header["pathname"]]
+//@   at call commands.delayedSmudge:1 assert arg0__ == gitfilter && arg3__ == req.Payload && arg5__ == req.Header["pathname"] && arg6__ == skip && arg7__ == filter
 //@   at call commands.delayedSmudge:1 assert stcount(s) == iter2(stcount(s))
 //@   at call (*git.FilterProcessScanner).WriteList:1 assert stcount(s) == iter2(stcount(s))
 //@   at call commands.readAvailable:1 assert waited(q)
